@@ -120,6 +120,17 @@ def ev_manual(w, branch, kind='commit', author=AUTHOR):
         sha = w.commit_file(tip, 'manual_%s_%d' % (sanitize(branch), n),
                             'manual %d\n' % n, 'manual fix on ' + branch,
                             author)
+    elif kind == 'merge':
+        # a hand-made merge commit (conflict resolution): second parent =
+        # the tip of the branch's destination
+        ver = branch.split('/')[1]
+        other = [b for b in w.heads() if b.split('/')[0] in (
+            'development', 'stabilization') and b.split('/', 1)[1] == ver]
+        sha = w.commit_file(tip, 'manual_merge_%s_%d' % (sanitize(branch),
+                                                         n),
+                            'resolved %d\n' % n,
+                            'manual fix on %s (merge)' % branch, author,
+                            extra_parents=[w.refs()[other[0]]])
     else:
         raise ValueError(kind)
     w.set_ref(branch, sha)
@@ -300,7 +311,17 @@ def ev_delete_branch(w, name):
                                branch=name))
 
 
+def ev_seq(w, *evs):
+    """Several events applied as one (macro event); the observation is the
+    last one's."""
+    res = None
+    for e in evs:
+        res = apply(w, e)
+    return res
+
+
 TABLE = {
+    'seq': ev_seq,
     'open': ev_open, 'open_raw': ev_open_raw, 'push': ev_push,
     'amend': ev_amend, 'rebase': ev_rebase, 'reset_src': ev_reset_src,
     'manual': ev_manual, 'approve': ev_approve, 'unapprove': ev_unapprove,
@@ -320,6 +341,8 @@ JOB_EVENTS = {'eval_pr', 'eval_commit', 'eval_sha', 'run_pending',
 
 
 def is_job(ev):
+    if ev[0] == 'seq':
+        return is_job(ev[-1])
     return ev[0] in JOB_EVENTS
 
 
